@@ -18,6 +18,8 @@ Expectations
               `LBClosed`, `ChainReducible` for Ward (rounding), for centroid/median (false even in
               exact arithmetic), `LwNoNaN` / `UpdClosed` / `ChainReducible.nan` for the arithmetic
               formulas on ALL values (∞ − ∞, overflow), `NumHom.maxValue` for scaling, `∀ x, ¬NaN x`;
+              `HalfAddLaws.half_double` / `.mid_ge` / `.mid_notNaN` WITHOUT the domain guard
+              (overflow at `−max_value`, `∞ + (−∞)`; with `dom=moderate` they are `holds`);
 * `observed`  everything that depends on whether the generated `Gen.average` is clamped from below
               (`if mean < least then least else mean`): the outcome is printed, never counted as
               unexpected, and summarised in `NOTE average-reducible`.
@@ -191,6 +193,44 @@ def laws : List Law :=
   , { name := "Word64.bound", expect := .holds, run32 := none,
       run64 := some fun _ => check_Word64_bound g64.full } ]
 
+/-- `HalfAddLaws` (`Lemmas/WeightedMono.lean`): the laws behind the weighted theorems
+(`Props/C01Weighted.lean`, `C12Weighted.lean`, `C14Weighted.lean`).  `dom=moderate` is the domain on
+which those theorems trust the laws for floats (`holds`); `dom=all` / `dom=nonNaN` is the same statement
+without the domain guard: monotonicity survives, `half_double` / `mid_ge` fail by overflow at
+`−max_value`, `mid_notNaN` at `∞ + (−∞)`. -/
+def halfAddLaws : List Law :=
+  [ law! "HalfAddLaws.add_mono_left[dom=moderate]", .holds,
+      fun _α g => check_HalfAddLaws_add_mono_left gMod g.mid
+  , law! "HalfAddLaws.add_mono_right[dom=moderate]", .holds,
+      fun _α g => check_HalfAddLaws_add_mono_right gMod g.mid
+  , law! "HalfAddLaws.half_mono[dom=moderate]", .holds,
+      fun _α g => check_HalfAddLaws_half_mono gMod g.g3
+  , law! "HalfAddLaws.half_double[dom=moderate]", .holds,
+      fun _α g => check_HalfAddLaws_half_double gMod g.full
+  , law! "HalfAddLaws.half_double[exact,dom=moderate]", .holds,
+      fun _α g => check_HalfAddLaws_half_double_exact gMod g.full
+  , law! "HalfAddLaws.mid_notNaN[dom=moderate]", .holds,
+      fun _α g => check_HalfAddLaws_mid_notNaN gMod g.full
+  , law! "HalfAddLaws.mid_ok[dom=moderate]", .holds,
+      fun _α g => check_HalfAddLaws_mid_ok gMod g.full
+  , law! "HalfAddLaws.mid_ge[derived,dom=moderate]", .holds,
+      fun _α g => check_HalfAddLaws_mid_ge gMod g.mid
+  -- the same statements without the domain guard
+  , law! "HalfAddLaws.add_mono_left[dom=all]", .holds,
+      fun _α g => check_HalfAddLaws_add_mono_left gAll g.mid
+  , law! "HalfAddLaws.add_mono_right[dom=all]", .holds,
+      fun _α g => check_HalfAddLaws_add_mono_right gAll g.mid
+  , law! "HalfAddLaws.half_mono[dom=all]", .holds,
+      fun _α g => check_HalfAddLaws_half_mono gAll g.g3
+  , law! "HalfAddLaws.half_mono[xy-form,dom=all]", .holds,
+      fun _α g => check_HalfAddLaws_half_mono_xy g.full
+  , law! "HalfAddLaws.half_double[dom=all]", .fails,      -- t = −max_value: t + t = −∞
+      fun _α g => check_HalfAddLaws_half_double gAll g.full
+  , law! "HalfAddLaws.mid_notNaN[dom=nonNaN]", .fails,    -- ∞ + (−∞)
+      fun _α g => check_HalfAddLaws_mid_notNaN gNotNaN g.full
+  , law! "HalfAddLaws.mid_ge[derived,dom=all]", .fails,   -- a = b = t = −max_value
+      fun _α g => check_HalfAddLaws_mid_ge gAll g.mid ]
+
 /-- Prints the line; returns `(unexpected, failed)`. -/
 def report (name : String) (e : Expect) (width : Nat) (r : Res) : IO (Bool × Bool) := do
   let failed := r.failed != 0
@@ -213,7 +253,7 @@ def main (args : List String) : IO UInt32 := do
   IO.println s!"GRID width=32 full={g32.full.size} mid={g32.mid.size} g3={g32.g3.size} g4={g32.g4.size}"
   let mut unexpected := 0
   let mut avgRed := true
-  for l in laws do
+  for l in laws ++ halfAddLaws do
     for (w, run) in [(64, l.run64), (32, l.run32)] do
       match run with
       | none => pure ()
